@@ -73,7 +73,7 @@ Calls == 1..Len(sc.calls)
 TreeOf(c) == sc.trees[sc.calls[c].root]      \* the tree call c reads (its `root`)
 Files(c) == TreeOf(c).files                  \* regular files
 Dirs(c) == TreeOf(c).dirs                    \* directories, empty ones included
-Specials(c) == TreeOf(c).specials            \* exist, neither directory nor regular file (FIFOs)
+Specials(c) == TreeOf(c).specials            \* exist, neither directory nor regular file (FIFOs, dangling links)
 Kind(c, p) == IF p \in Files(c) THEN "file" ELSE IF p \in Dirs(c) THEN "dir"
               ELSE IF p \in Specials(c) THEN "special" ELSE "none"
 AllFiles == UNION {sc.trees[t].files : t \in DOMAIN sc.trees}
@@ -144,6 +144,8 @@ SetHandle(st0, kp, h, rule, nest) ==
                   !.made = @ \cup {[c |-> h.c, r |-> h.r, p |-> h.p, f |-> rule.fac, a |-> rule.args]}]
 
 \* the extension filter as coded looks at every glob result, directories included
+\* (glob also lists the special entries below rule.dir, whether or not their names pass the filter: they are neither
+\* isdir nor isfile, lines 167-171 do nothing for them - they are in neither of the two sets below)
 Passes(rule, p) == rule.exts = {} \/ Ext(Last(p)) \in rule.exts
 SeenDirs(c, rule) == {p \in Dirs(c) : Under(rule.dir, p) /\ Passes(rule, p)}
 SeenFiles(c, rule) == {p \in Files(c) : Under(rule.dir, p) /\ Passes(rule, p)}
